@@ -36,7 +36,7 @@ func init() {
 			cfg := kmodel.AllConfigs[idx%len(kmodel.AllConfigs)]
 			w := map[string]int{"create": 10, "update": 4, "patch": 4, "delete": 8, "deletewhere": 2, "addlinks": 4, "setlinks": 3, "removelinks": 1, "rcinc": 4, "rcdec": 1, "rcset": 1}
 			var pre *kmodel.Model
-			runHistory(c, r, histOpts{Prefix: "C06", Cfg: cfg, NTx: 45, MaxOps: 3, Hostile: true, Weights: w, NeedDump: true,
+			runHistory(c, r, histOpts{Prefix: "C06", FanIn: true, Cfg: cfg, NTx: 45, MaxOps: 3, Hostile: true, Weights: w, NeedDump: true,
 				AfterTx: func(e *kmodel.Engine, res *kmodel.TxResult, before, after *dump.Dump) {
 					defer func() { pre = e.M.Clone() }()
 					if !res.Committed || after == nil {
@@ -132,7 +132,9 @@ func init() {
 			return map[string][]string{"deleted_entity": {"linked", "rc-linked", "referenced", "set-indexed", "child:" + kmodel.Mgrs, "child:" + kmodel.Ctrs},
 				"sibling": {"data in both child stores"}, "sibling_delete": {"parent+A+B through parent", "parent+A+B through childA", "parent+A+B through childB", "parent+A through childA", "parent through parent"}}
 		},
-		MinCounters: func(core.Tier) map[string]int64 { return map[string]int64{"deletes_scanned": 200, "recreated": 50, "sibling_deletes_scanned": 100} },
+		MinCounters: func(core.Tier) map[string]int64 {
+			return map[string]int64{"deletes_scanned": 200, "recreated": 50, "sibling_deletes_scanned": 100}
+		},
 	})
 }
 
